@@ -71,6 +71,10 @@ func checkC04(c *Ctx) {
 	c12ScenariosRule(c, "R04q", func(fn, rule string) bool { return fn == "validateOneofFlatten" })
 	r.Rule("R04r", "an emitted encoder writes one entry for every element of the collection it ranges over: inside the loop the store is guarded by nil tests only (an entry skipped for being empty cannot be restored by the decoder)", 2)
 	encoderKeepsEveryElement(c, "R04r")
+	r.Rule("R04v", "a scratch map an emitted codec function serialises per child is fresh for each child", 1)
+	scratchMapsPerChild(c, "R04v")
+	r.Rule("R04u", "emitted codec units keep no package-level pool or cache: the JSON form of a message depends on the message alone", 1)
+	codecsKeepNoState(c, "R04u")
 	r.Rule("R04t", "per message type, the emitted encoder consults a nested value's own codec exactly when the emitted decoder does", 1)
 	codecPairShape(c, "R04t", "")
 	r.Rule("R04s", "a slice or map that an emitted decoder fills inside a loop and stores per entry is declared inside the loop (a target declared once is aliased by every entry)", 1)
@@ -904,4 +908,161 @@ func codecPairShape(c *Ctx, ridSym, ridRec string) {
 	if ridRec != "" {
 		r.OKd(ridRec, "emitted MarshalJSON/UnmarshalJSON methods inspected for self-recursion through encoding/json", "", map[string]any{"methods": nFuncs})
 	}
+}
+
+// codecsKeepNoState — R04u. The JSON form of a message is a function of the message alone: a codec unit declares no
+// package-level pool or cache (sync.Pool, sync.Map). A scratch map taken from a pool and handed back uncleared carries the
+// keys of the previous message into the next encode (json.Unmarshal into a non-nil map keeps existing keys), so what is
+// decoded is not what was encoded.
+func codecsKeepNoState(c *Ctx, rid string) {
+	r := c.R
+	nVars := 0
+	reported := map[string]bool{}
+	for _, ri := range c.goUnitRoots() {
+		if strings.HasSuffix(ri.Suffix, "_client.pb.go") || strings.Contains(ri.Suffix, "_http") {
+			continue // the client and the server runtime are C17's subject; here the codec units
+		}
+		ex := c.ExploreT(ri.Fn, 6000)
+		for _, v := range ex.Variants {
+			for _, u := range v.Units {
+				fset, f, err := ParseUnit(u)
+				if err != nil {
+					continue
+				}
+				for _, d := range f.Decls {
+					gd, ok := d.(*ast.GenDecl)
+					if !ok || gd.Tok != token.VAR {
+						continue
+					}
+					for _, sp := range gd.Specs {
+						vs := sp.(*ast.ValueSpec)
+						nVars += len(vs.Names)
+						txt := ""
+						if vs.Type != nil {
+							txt += types.ExprString(vs.Type)
+						}
+						for _, val := range vs.Values {
+							txt += " " + types.ExprString(val)
+						}
+						for _, kind := range []string{"sync.Pool", "sync.Map"} {
+							if strings.Contains(txt, kind) {
+								k := fmt.Sprintf("%s *%s: no package-level %s", pkgShort(ri.Pkg), ri.Suffix, kind)
+								if !reported[k] {
+									reported[k] = true
+									pos := ""
+									if line := fset.Position(vs.Pos()).Line; line >= 1 && line <= len(u.Lines) {
+										pos = c.P.Pos(u.Lines[line-1].Pos)
+									}
+									r.Bad(rid, k, pos, "the emitted codec unit keeps a package-level "+kind+" ("+holeFree(vs.Names[0].Name)+"): scratch state that survives from one encode or decode to the next — keys a previous message left in a pooled map are written into the next message's JSON", nil)
+								}
+							}
+						}
+					}
+				}
+			}
+		}
+	}
+	r.OKd(rid, "package-level variables of the emitted codec units inspected", "", map[string]any{"variables": nVars, "pools_or_caches": len(reported)})
+}
+
+// scratchMapsPerChild — R04v / R05q. In an emitted codec function, a local map that is filled and then serialised
+// (json.Marshal(m)) for one child must not be serialised again for the next child without having been re-made or cleared:
+// a scratch map declared once for the whole function still holds the first child's keys when the second child is decoded
+// from it, so the second child receives members the body never contained (or the decode fails on a key it does not know).
+func scratchMapsPerChild(c *Ctx, rid string) {
+	r := c.R
+	nMaps := 0
+	reported := map[string]bool{}
+	for _, ri := range c.goUnitRoots() {
+		ex := c.ExploreT(ri.Fn, 6000)
+		for _, v := range ex.Variants {
+			for _, u := range v.Units {
+				fset, f, err := ParseUnit(u)
+				if err != nil {
+					continue
+				}
+				for _, d := range f.Decls {
+					fd, ok := d.(*ast.FuncDecl)
+					if !ok || fd.Body == nil {
+						continue
+					}
+					// local maps: name -> number of definitions, reassignments / clears, Marshal uses
+					type info struct {
+						defs, resets, marshals, stores int
+						pos                            token.Pos
+					}
+					maps := map[string]*info{}
+					isMapExpr := func(e ast.Expr) bool {
+						switch x := ast.Unparen(e).(type) {
+						case *ast.CompositeLit:
+							_, ok := x.Type.(*ast.MapType)
+							return ok
+						case *ast.CallExpr:
+							if id, ok := x.Fun.(*ast.Ident); ok && id.Name == "make" && len(x.Args) >= 1 {
+								_, ok := x.Args[0].(*ast.MapType)
+								return ok
+							}
+						}
+						return false
+					}
+					ast.Inspect(fd.Body, func(n ast.Node) bool {
+						switch x := n.(type) {
+						case *ast.AssignStmt:
+							for i, l := range x.Lhs {
+								if id, ok := l.(*ast.Ident); ok && i < len(x.Rhs) && isMapExpr(x.Rhs[i]) {
+									if maps[id.Name] == nil {
+										maps[id.Name] = &info{}
+									}
+									if x.Tok == token.DEFINE {
+										maps[id.Name].defs++
+									} else {
+										maps[id.Name].resets++
+									}
+								}
+								if ix, ok := l.(*ast.IndexExpr); ok {
+									if id, ok := ast.Unparen(ix.X).(*ast.Ident); ok && maps[id.Name] != nil {
+										maps[id.Name].stores++
+									}
+								}
+							}
+						case *ast.CallExpr:
+							fun := types.ExprString(x.Fun)
+							if len(x.Args) == 1 {
+								if id, ok := ast.Unparen(x.Args[0]).(*ast.Ident); ok && maps[id.Name] != nil {
+									switch fun {
+									case "json.Marshal":
+										maps[id.Name].marshals++
+										if maps[id.Name].pos == token.NoPos {
+											maps[id.Name].pos = x.Pos()
+										}
+									case "clear":
+										maps[id.Name].resets++
+									}
+								}
+							}
+						}
+						return true
+					})
+					for name, m := range maps {
+						if m.stores == 0 || m.marshals == 0 {
+							continue
+						}
+						nMaps++
+						if m.defs == 1 && m.resets == 0 && m.marshals >= 2 {
+							k := fmt.Sprintf("%s *%s %s: scratch map %s is fresh for every child it is serialised for", pkgShort(ri.Pkg), ri.Suffix, fd.Name.Name, holeFree(name))
+							if !reported[k] {
+								reported[k] = true
+								pos := ""
+								if line := fset.Position(m.pos).Line; line >= 1 && line <= len(u.Lines) {
+									pos = c.P.Pos(u.Lines[line-1].Pos)
+								}
+								r.Bad(rid, k, pos, fmt.Sprintf("the emitted %s makes the map %s once and serialises it %d times (once per child) without re-making or clearing it in between: the keys collected for an earlier child are still in it when a later child is decoded from it", fd.Name.Name, holeFree(name), m.marshals), nil)
+							}
+						}
+					}
+				}
+			}
+		}
+	}
+	r.OKd(rid, "scratch maps of emitted codec functions inspected", "", map[string]any{"scratch_maps": nMaps, "reused_across_children": len(reported)})
 }
